@@ -115,3 +115,17 @@ Theorem C04_registry_link :
      Loop.alookup (Loop.c_fd (Loop.getc s cid)) (Loop.l_reg s) = Some x -> x = cid).
 Proof. exact registry_link. Qed.
 Print Assumptions C04_registry_link.
+
+(* Non-vacuity: a concrete run with three callbacks satisfies both checkers, and the lifecycle checker is not
+   trivially true (a traffic callback after the close is rejected). *)
+Example C04_nonvacuous :
+  match run_history LoopLifecycle.ex_input with
+  | Some t => (count_ok t, lifecycle_ok t,
+               List.length (filter (fun e => match e with EOut ("cb", _) => true | _ => false end) t))
+  | None => (false, false, O)
+  end = (true, true, 3%nat) /\
+  lifecycle_ok [EOut (obs "cb" [ASym "open"; AInt 0]);
+                EOut (obs "cb" [ASym "close"; AInt 0; ASym "nil"]);
+                EOut (obs "cb" [ASym "traffic"; AInt 0])] = false.
+Proof. split; [exact LoopLifecycle.ex_history_callbacks|exact LoopLifecycle.ex_lifecycle_rejects]. Qed.
+Print Assumptions C04_nonvacuous.
